@@ -1,3 +1,4 @@
+mod alloc;
 mod corpus;
 mod explore;
 mod history;
@@ -26,6 +27,8 @@ fn main() {
         "C10" => props::c10::run(&cfg),
         "C16" => props::c16::run(&cfg),
         "C17" => props::c17::run(&cfg),
+        "C18" => props::c18::run(&cfg),
+        "leakrun" => props::c18::leakrun(&cfg),
         "play" => tools::play_cmd(&args),
         "gen" => tools::gen_cmd(&cfg),
         "classify" => tools::classify_cmd(&args),
